@@ -8,6 +8,9 @@ import ast
 import z3
 from vp.contract import contract
 from vp.values import *   # noqa
+from vp.values import _other
+from vp.lib import conc
+from vp.symex import Unsupported
 from vp import spec as S
 from vp import fsmodel as FS
 from .recursiveloader import join2, set_minus, EMPTYSET, SetStr
@@ -338,3 +341,116 @@ def _(c):
         pol = z3.Or(rel == STR(''), pol)       # the top-level Manifest exists by construction on both sides
         return z3.Implies(z3.And(shape, *env.facts()), script_has == pol)
     c.lemma('manifests-are-placed-where-the-ebuild-profile-wants-them-on-repository-shaped-trees', placement)
+
+
+FS_BLINES = z3.Function('fs_binary_lines', SS, StrSeq)        # A-fs: the lines of a file opened in binary mode
+RSTRIP = z3.Function('py_rstrip_ws', SS, SS)
+
+KEPT = S.Fold('fast_kept_lines', StrSeq, init=lambda env: z3.Empty(StrSeq),
+              step=lambda env, acc, l, idx: z3.If(z3.Or(z3.PrefixOf(STR('DIST'), l), z3.PrefixOf(STR('IGNORE'), l)),
+                                                  z3.Concat(acc, z3.Unit(RSTRIP(l))), acc))
+
+
+@contract('utils/gen_fast_manifest.py', 'gen_manifest', props=['C20'])
+def _(c):
+    c.params(top_dir=Str)
+    c.returns(NoneT)
+    c.only_raises('OSError')
+    c.note('per-contract models (A-fs): open(path, "rb") yields the binary lines of the file or fails by errno; open(path, "wb") '
+           'is a sink; gzip.GzipFile(fileobj=sink, ...) writes through to it; os.unlink removes a path; all recorded as ghost events')
+
+    def setup(it, fr, bound):
+        ctx = it.ctx
+        ev = ctx.ghost.setdefault('fast_io', [])
+
+        def open_path(itp, a, k, n):
+            p = itp.ctx.force(a[0])
+            mode = itp.ctx.force(a[1]) if len(a) > 1 else VStr('r')
+            m = conc(mode)
+            FS.fs_axioms(itp.ctx, p.t)
+            if m == 'rb':
+                e = FS.fs_open_err(p.t)
+                if not itp.ctx.branch(e == 0, 'open-ok'):
+                    FS.raise_oserror(itp, 'open', e, p.t, n)
+                f = VSeq(FS_BLINES(p.t), Bytes, 'lines')       # a binary file object is used for its lines only
+                f.cm = lambda itq, nd: ((lambda: f), (lambda exc: False))
+                ev.append(('read', p.t))
+                return f
+            if m == 'wb':
+                e = z3.Function('fs_openw_err', SS, z3.IntSort())(p.t)
+                if not itp.ctx.branch(e == 0, 'openw-ok'):
+                    FS.raise_oserror(itp, 'open(w)', e, p.t, n)
+                o = VOpaque(_other('sink', p.t), 'other')
+                o.sink_path = p.t
+
+                def write(itq, aa, kk, nn):
+                    ev.append(('write', p.t, itq.ctx.force(aa[0]).t, None))
+                    return NONE
+                w = VFunc('sink.write', write)
+                w.bind = False
+                o.attrs = {'write': w}
+                o.cm = lambda itq, nd: ((lambda: o), (lambda exc: False))
+                return o
+            raise Unsupported('open mode %r' % m, n)
+        it.engine.open_path_hook = open_path
+
+        def gzipfile(itp, a, k, n):
+            under = itp.ctx.force(k['fileobj'])
+            opts = {kk: itp.ctx.force(v) for kk, v in k.items() if kk != 'fileobj'}
+            g = VOpaque(_other('gz', under.sink_path), 'other')
+
+            def write(itq, aa, kk, nn):
+                ev.append(('write', under.sink_path, itq.ctx.force(aa[0]).t, opts))
+                return NONE
+            w = VFunc('gz.write', write)
+            w.bind = False
+            g.attrs = {'write': w}
+            g.cm = lambda itq, nd: ((lambda: g), (lambda exc: False))
+            return g
+        it.lib.modules.setdefault('gzip', {})['GzipFile'] = VFunc('gzip.GzipFile', gzipfile)
+
+        def unlink(itp, a, k, n):
+            p = itp.ctx.force(a[0])
+            e = z3.Function('fs_unlink_err', SS, z3.IntSort())(p.t)
+            if not itp.ctx.branch(e == 0, 'unlink-ok'):
+                FS.raise_oserror(itp, 'unlink', e, p.t, n)
+            ev.append(('unlink', p.t))
+            return NONE
+        it.lib.modules['os']['unlink'] = VFunc('os.unlink', unlink)
+    c.setup = setup
+
+    c.loop(1, header='for l in f', vars={'manifest_entries': ListT(Bytes)},
+           inv=[('kept-lines-so-far', lambda s: as_seq(s.cur.manifest_entries) == KEPT(s, s.seq, s.i))])
+
+    def post(s):
+        ev = s.ghost('fast_io', [])
+        writes = [e for e in ev if e[0] == 'write']
+        unlinks = [e for e in ev if e[0] == 'unlink']
+        reads = [e for e in ev if e[0] == 'read']
+        calls = [r for r in s._it.ctx.call_log if r[0].endswith('generate_manifest_entries')]
+        if len(writes) != 1 or len(calls) != 1:
+            return z3.BoolVal(False)
+        compat = calls[0].result
+        plain = join2(s.top_dir, STR('Manifest'))
+        gz = join2(s.top_dir, STR('Manifest.gz'))
+        w = writes[0]
+        had = len(reads) == 1
+        through_gzip = w[3] is not None
+        conj = [w[1] == z3.If(compat, plain, gz), z3.BoolVal(through_gzip) == z3.Not(compat)]
+        if through_gzip:
+            conj.append(z3.And(w[3]['mtime'].t == 0, w[3]['filename'].t == STR(''), w[3]['mode'].t == STR('wb')))
+        # the old plain Manifest goes away exactly when a compressed one replaces it
+        conj.append(z3.BoolVal(len(unlinks) == 1) == z3.And(z3.Not(compat), z3.BoolVal(had)))
+        if unlinks:
+            conj.append(unlinks[0][1] == plain)
+        return z3.And(*conj)
+    c.ensures('one-manifest-written-gzip-unless-package-directory-and-the-old-plain-one-removed', post, internal=True)
+
+    def first_arg_is_the_kept_lines(s, args, kwargs, raw):
+        ev = s.ghost('fast_io', [])
+        reads = [e for e in ev if e[0] == 'read']
+        if not reads:
+            return z3.And(as_seq(args[0]) == z3.Empty(StrSeq), args[1] == s.top_dir)
+        L = FS_BLINES(join2(s.top_dir, STR('Manifest')))
+        return z3.And(as_seq(args[0]) == KEPT(s, L, z3.Length(L)), args[1] == s.top_dir)
+    c.site('kept-DIST-and-IGNORE-lines-of-the-old-manifest-are-handed-on', 'generate_manifest_entries', first_arg_is_the_kept_lines)
